@@ -20,6 +20,7 @@ import leaf_engine as LE
 import mach_engine as ME
 import engine_c10 as E10
 import engine_c15 as E15
+import engine_c16 as E16
 
 TRUSTED_BASE = [
     "Lean 4.33.0 kernel (leanchecker re-check in the thorough tier)",
@@ -113,6 +114,17 @@ def main():
                 cov['oracle_checks'] = cov.get('evaluations', 0)
             else:
                 cov['oracle_checks'] = int(extra.get('coverage', {}).get('evaluations', 0) or 0)
+            res['summary'] = re.sub(r'oracle_checks=\d+', 'oracle_checks=%d' % cov['oracle_checks'], res.get('summary', ''))
+
+        if pid == 'C16':
+            # per-method logger records in interface mode, on the real code (tools/engine_c16.py)
+            x16 = E16.run(tier, a.seed)
+            res['rejections'] = list(res.get('rejections', [])) + list(x16.get('rejections', []))
+            res['broken'] = list(res.get('broken', [])) + list(x16.get('broken', []))
+            res.setdefault('coverage', {})['per_method_records'] = x16.get('coverage', {})
+            res['assumptions'] = list(res.get('assumptions', [])) + list(x16.get('assumptions', []))
+            cov = res['coverage']
+            cov['oracle_checks'] = int(cov.get('oracle_checks', 0) or 0) + int(x16.get('coverage', {}).get('evaluations', 0) or 0)
             res['summary'] = re.sub(r'oracle_checks=\d+', 'oracle_checks=%d' % cov['oracle_checks'], res.get('summary', ''))
 
     # thorough: independent re-check of the compiled property module
